@@ -20,8 +20,12 @@ LEVEL_TEXT = ("Every string of a 19-string hostile alphabet (quotes, backslashes
               "re-read report must equal the original field by field and re-serialise to the same text up to the timestamp.")
 LEVEL_NOTE = "Bounds: alphabet and base codebases in evidence.bounds. Strings containing '/' are not placed in path components (they would be other paths)."
 
-STRINGS = ["a", 'a"b', "a\\b", "a\\\\", '"', '\\"', "a\nb", "a\tb", "\x01", "é", "日本", "😀", '"}', "{0}", "%s", "${x}", "'", "\\u0041", "a\\"]
-HOSTILE = ['a"b', "a\\b", '\\"', "a\nb", '"}', "😀", "a\\"]
+# every hostile character alone, at the start, in the middle and at the END of a string (a trailing newline is not the
+# same as an embedded one for `$`-anchored regular expressions), plus format-like strings
+_HOSTILE_CHARS = ['"', "\\", "\n", "\r", "\t", "\x01", "\x7f", "\x0c", "\u2028", "\u0085", "é", "日本", "😀", "'"]
+STRINGS = ["a"] + [f for c in _HOSTILE_CHARS for f in (c, c + "a", "a" + c + "b", "main" + c)] + \
+          ['\\"', "a\\\\", '"}', "{0}", "%s", "${x}", "\\u0041", "a\r\n", " a ", "\n\n", "true", "null", "0"]
+HOSTILE = ['a"b', "a\\b", '\\"', "a\nb", '"}', "😀", "a\\", "main\n", "\r"]
 FIELDS = ["root", "dir", "stem", "function", "owner", "repo", "branch", "checksum", "version"]
 BASES = {
     "two-files": [("{dir}/{stem}.py", "Python", [16, 31]), ("b.js", "JavaScript", [61])],
@@ -110,6 +114,17 @@ def eval_case(base, sub, with_repo, with_version):
     except Exception as e:  # noqa
         out.append(("reader-raised", {"error": type(e).__name__}, f"fields={fields}: {e!r}"))
         return out
+    # reading is repeatable: the same text read again (same process) gives the same report
+    try:
+        back2 = ReportReader.from_json(text)
+        ver2 = ReportReader.get_report_version(text)
+        back3 = ReportReader.from_json(docs["compact"][0])
+    except Exception as e:  # noqa
+        out.append(("reader-raised", {"error": type(e).__name__, "read": "second"}, f"fields={fields}: {e!r}"))
+        return out
+    if describe(back2) != describe(back) or ver2 != ver or describe(back3) != describe(back):
+        diff = [k for k in describe(back) if describe(back)[k] != describe(back2)[k] or describe(back)[k] != describe(back3)[k]]
+        out.append(("second-read-differs", {"what": diff[0] if diff else "version"}, f"fields={fields}: {diff}"))
     a, b = describe(rep), describe(back)
     for key in a:
         if a[key] != b[key]:
